@@ -56,10 +56,10 @@ type Event struct {
 	Cols  []string    `json:"cols"` // field names of a by-columns operation
 	Row   []string    `json:"row"`  // canonical argument row (columns of Cols meta order)
 	Rows  [][]string  `json:"rows"` // argument rows (InsertMany)
-	ID    int64       `json:"id"`             // argument id
-	IDs   []int64     `json:"ids"`            // argument ids
+	ID    int64       `json:"id"`   // argument id
+	IDs   []int64     `json:"ids"`  // argument ids
 	Vals  []string    `json:"vals"` // argument values of a by-columns operation (canonical)
-	Err   string      `json:"err"`            // "" | norows | unique | fk | check | notnull | other
+	Err   string      `json:"err"`  // "" | norows | unique | fk | check | notnull | other
 	Msg   string      `json:"msg"`
 	Found bool        `json:"found"`
 	Out   []OutRow    `json:"out"`            // rows returned
